@@ -34,6 +34,12 @@ Sweeps (oracle by construction, real code only, the same on every seed apart fro
   * sweep_scopes: the same contexts left by an exception (6 kinds, caught by a try around the nest) or by a return inside
     a sub-template; afterwards probes of error_type / error_value / error_tb, let names, with attributes / keys, sequence
     variables, sub-template keywords and an enclosing let must find everything unbound again.
+  * both sweeps again over TEMPLATE CLASSES (HTML, a plain subclass, HTML with the security mix-in RestrictedDTML that Zope's
+    DTML Method / Document use: every look-up goes through the security policy) x 10 ways the catching handler reads
+    error_type / error_value / error_tb (name, entity, expr, _[...], _.getitem, let, in, if, after a nested try, inside a with)
+    x RE-ENTERED renderings: every logging call -- before the exit and in the finally bodies a pending return / exception
+    passes -- renders the same compiled template (and sub-templates) to its end with another value; each rendering must
+    return its own value / text and render its own logging calls (a pending outcome belongs to the call, not to the tag).
 """
 import json
 
@@ -1117,12 +1123,15 @@ def sweep_values():
 
 
 class _Box:
+    __allow_access_to_unprotected_subobjects__ = 1      # public for the security policy of restricted templates
+
     def __init__(self, value):
         self.value = value
 
 
 class _Holder:
     """a dtml-with target / a client object"""
+    __allow_access_to_unprotected_subobjects__ = 1
 
 
 def sweep_build(wrappers, spelling, vname):
@@ -1164,52 +1173,113 @@ def sweep_build(wrappers, spelling, vname):
 
 
 _COMPILED = {}
+_CLASSES = {}
+
+# The template classes a rendering may use.  'RestrictedHTML' carries DocumentTemplate.security.RestrictedDTML, the documented
+# mix-in Zope's DTML Method / DTML Document put in front of HTML: every attribute / item the namespace hands out then goes
+# through the security policy (md.guarded_getattr / guarded_getitem).  Nothing in the property depends on the class: what a
+# block binds (error_type / error_value / error_tb, let names, sequence variables, ...) must be readable inside it and gone
+# after it in each of them.  Data is passed as keywords / a mapping there (attributes of an arbitrary client object are
+# the security policy's business, not this property's) and the helper objects declare themselves public.
+TEMPLATE_CLASSES = ['HTML', 'RestrictedHTML', 'HTMLSubclass']
+RESTRICTED = {'RestrictedHTML'}
 
 
-def compiled(src):
-    """one template object per source text: the same compiled template is called again for every value / channel (as a
-    stored template is), so what a tag remembers from an earlier call is exercised too"""
-    from DocumentTemplate import HTML
-    t = _COMPILED.get(src)
+def template_class(name):
+    if not _CLASSES:
+        from DocumentTemplate import HTML
+        from DocumentTemplate.security import RestrictedDTML
+        _CLASSES['HTML'] = HTML
+        _CLASSES['RestrictedHTML'] = type('RestrictedHTML', (RestrictedDTML, HTML), {})
+        _CLASSES['HTMLSubclass'] = type('HTMLSubclass', (HTML,), {})
+    return _CLASSES[name]
+
+
+def compiled(src, klass='HTML'):
+    """one template object per (class, source text): the same compiled template is called again for every value / channel
+    (as a stored template is), so what a tag remembers from an earlier call is exercised too"""
+    key = (klass, src)
+    t = _COMPILED.get(key)
     if t is None:
         if len(_COMPILED) > 4000:
             _COMPILED.clear()
-        t = _COMPILED[src] = HTML(src)
+        t = _COMPILED[key] = template_class(klass)(src)
     return t
 
 
-def sweep_one(res, wrappers, spelling, value, channel):
+class _Inner:
+    """the value a re-entered rendering returns (one fresh object per rendering)"""
+
+    def __init__(self, at):
+        self.at = at
+
+    def __repr__(self):
+        return '<the value of the rendering started at %s>' % self.at
+
+
+def call_template(t, channel, ns, vname=None):
+    if channel == 'keywords':
+        return t(**ns)
+    if channel == 'mapping':
+        return t(None, ns)
+    client = _Holder()
+    if channel == 'client':
+        client.__dict__.update(ns)
+        return t(client)
+    client.__dict__.update({k: v for k, v in ns.items() if k != vname})
+    return t(client, {'unrelated': 0}, **{vname: ns[vname]})
+
+
+def sweep_ns(obj, vname, mark, subs, klass):
+    amap = {'in_the_mapping': 1}
+    holder = _Holder()
+    holder.on_the_holder = 1
+    ns = {'mark': mark, 'yes': 1, 'no': 0, 'three': [10, 20, 30], 'empty': [], 'holder': holder, 'amap': amap,
+          'Err': proggen.E2, vname: obj, 'box_' + vname: _Box(obj), 'boxes': {vname: obj}, 'get_' + vname: lambda: obj}
+    for n, text in subs.items():
+        ns[n] = compiled(text, klass)
+    return ns
+
+
+def sweep_one(res, wrappers, spelling, value, channel, klass='HTML', reenter=False):
+    """reenter: EVERY logging call of the rendering (before the return, and in the finally bodies the pending return passes)
+    renders THE SAME compiled template (and sub-templates) once more, with another value, to its end, the way a recursive
+    template / a method called from a finally body / another request on the same stored template does.  Each rendering has
+    its own call: it must return ITS value and render ITS logging calls, whatever the other one did in between."""
     obj = value[1]
     vname = 'val'
     src, subs, exp_log = sweep_build(wrappers, spelling[1], vname)
     log = []
-    amap = {'in_the_mapping': 1}
-    holder = _Holder()
-    holder.on_the_holder = 1
-    ns = {'mark': log.append, 'yes': 1, 'no': 0, 'three': [10, 20, 30], 'empty': [], 'holder': holder, 'amap': amap,
-          'Err': proggen.E2, vname: obj, 'box_' + vname: _Box(obj), 'boxes': {vname: obj}, 'get_' + vname: lambda: obj}
-    for n, text in subs.items():
-        ns[n] = compiled(text)
     label = {'wrappers': [w[0] for w in wrappers], 'return': spelling[0], 'value': '%s: %.80r' % (type(obj).__name__, obj),
-             'data_passed_as': channel, 'source': src, 'sub_templates': subs}
+             'data_passed_as': channel, 'template_class': klass, 'source': src, 'sub_templates': subs}
+    inner_bad = []
+    mark = log.append
+    if reenter:
+        label['re_entered'] = 'at every logging call, by the same template with another value'
+
+        def mark(mid):
+            log.append(mid)
+            ilog = []
+            iobj = _Inner(mid)
+            res.count('sweep_reentered_renderings')
+            try:
+                igot = call_template(compiled(src, klass), channel, sweep_ns(iobj, vname, ilog.append, subs, klass), vname)
+            except Exception as e:  # noqa
+                inner_bad.append('the rendering started at %s raised %s: %.120s' % (mid, type(e).__name__, e))
+                return
+            if igot is not iobj:
+                inner_bad.append('the rendering started at %s returned %.80r, not its own value' % (mid, igot))
+            elif ilog != exp_log:
+                inner_bad.append('the rendering started at %s rendered the logging calls %r, not %r' % (mid, ilog, exp_log))
+    ns = sweep_ns(obj, vname, mark, subs, klass)
     res.evaluations += 1
     res.count('sweep_renderings')
     res.count('sweep_depth_%d' % len(wrappers))
+    if klass != 'HTML':
+        res.count('sweep_renderings_' + klass)
     res.nt(('sweep', tuple(label['wrappers']), spelling[0], type(obj).__name__))
     try:
-        t = compiled(src)
-        if channel == 'keywords':
-            got = t(**ns)
-        elif channel == 'mapping':
-            got = t(None, ns)
-        elif channel == 'client':
-            client = _Holder()
-            client.__dict__.update(ns)
-            got = t(client)
-        else:
-            client = _Holder()
-            client.__dict__.update({k: v for k, v in ns.items() if k != vname})
-            got = t(client, {'unrelated': 0}, **{vname: obj})
+        got = call_template(compiled(src, klass), channel, ns, vname)
     except Exception as e:  # noqa
         res.oracle_fail.append({'case': label, 'what': 'the call must return the object given to dtml-return; it raised %s: %.200s '
                                                        '(log %r)' % (type(e).__name__, e, log)})
@@ -1224,6 +1294,9 @@ def sweep_one(res, wrappers, spelling, value, channel):
         res.oracle_fail.append({'case': label, 'what': 'the right object came back, but the logging calls rendered were %r; '
                                                        'Python control flow renders %r (p: before the return, f: finally bodies '
                                                        'the return passes, n: never)' % (log, exp_log)})
+        return False
+    if inner_bad:
+        res.oracle_fail.append({'case': label, 'what': 'the outer call is right, but ' + '; '.join(inner_bad[:3])})
         return False
     return True
 
@@ -1269,6 +1342,38 @@ def sweep_returns(res, tier, r, budget=None):
                 ok = sweep_one(res, [a, b], sp, v, r.choice(SWEEP_CHANNELS))
                 n += 1
                 bad += not ok
+                if bad > 40:
+                    return n
+    # other template classes (security mix-in, plain subclass) and re-entered renderings: every wrapper x every spelling
+    # with values rotating (thorough: every value), then every ordered pair of wrappers
+    def allowed(klass, sp, v):
+        # what the security policy says about items that are built-in functions is not this property's subject
+        return not (klass in RESTRICTED and sp[0] == 'item' and not v[2])
+    k = 0
+    for reenter in (False, True):
+        for w in W:
+            for sp in SWEEP_SPELLINGS:
+                vs = values_for(sp)
+                for v in (vs if tier == 'thorough' and not reenter else [vs[(k + j * 7) % len(vs)] for j in range(3)]):
+                    klass = TEMPLATE_CLASSES[k % 3] if reenter else TEMPLATE_CLASSES[1 + k % 2]
+                    k += 1
+                    if not allowed(klass, sp, v):
+                        continue
+                    chan = SWEEP_CHANNELS[k % 2] if klass in RESTRICTED else SWEEP_CHANNELS[k % 4]
+                    bad += not sweep_one(res, [w], sp, v, chan, klass, reenter)
+                    n += 1
+                    if bad > 40:
+                        return n
+        for a, b in pairs:
+            for _ in range(4 if tier == 'thorough' else 1):
+                v = r.choice(values)
+                sp = r.choice(spellings_for(v))
+                klass = r.choice(TEMPLATE_CLASSES)
+                if not allowed(klass, sp, v):
+                    continue
+                chan = r.choice(SWEEP_CHANNELS[:2] if klass in RESTRICTED else SWEEP_CHANNELS)
+                bad += not sweep_one(res, [a, b], sp, v, chan, klass, reenter)
+                n += 1
                 if bad > 40:
                     return n
     triples = [(a, b, c) for a in W for b in W for c in W]
@@ -1318,7 +1423,25 @@ def scope_probes(sentinel):
     return src, exp
 
 
-def scope_one(res, wrappers, exit_, channel):
+# how the handler around the nest reads the class name of what it caught: all of them must print it
+SCOPE_CATCH_FORMS = [
+    '<dtml-var error_type>',
+    '&dtml-error_type;',
+    '<dtml-var expr="error_type">',
+    '<dtml-var "_[\'error_type\']">',
+    '<dtml-if "error_value is not None and error_tb and _.len(error_tb) > 20"><dtml-var error_type><dtml-else>NO VALUE / TB</dtml-if>',
+    '<dtml-let seen=error_type tb=error_tb><dtml-var seen></dtml-let>',
+    '<dtml-if error_tb><dtml-in "[error_type]">&dtml-sequence-item;</dtml-in></dtml-if>',
+    '<dtml-try><dtml-raise TypeError>inner</dtml-raise><dtml-except LookupError>WRONG<dtml-except TypeError></dtml-try>'
+    '<dtml-var error_type>',
+    '<dtml-var "_.getitem(\'error_type\', 0)">',
+    '<dtml-with "_.namespace(unrelated=1)"><dtml-var error_type></dtml-with>',
+]
+
+
+def scope_one(res, wrappers, exit_, channel, klass='HTML', catch=0, reenter=False):
+    """reenter: every logging call renders the same compiled template once more to its end (other returned text), while
+    the outer rendering's exception / return is pending or yet to come: both renderings must give their own text"""
     names = [w[0] for w in wrappers]
     ename, esrc, ecls = exit_
     body, subs, exp_log = sweep_build(wrappers, esrc, 'val')
@@ -1332,34 +1455,51 @@ def scope_one(res, wrappers, exit_, channel):
         src = '<dtml-let sentinel="\'outer\'">[<dtml-var returning>%s]</dtml-let>%s' % (p_in, p_out)
         expected = '[RV%s]%s' % (e_in, e_out)
     else:
-        src = ('<dtml-let sentinel="\'outer\'">[<dtml-try>t%s<dtml-except>caught:<dtml-var error_type></dtml-try>%s]</dtml-let>%s'
-               % (body, p_in, p_out))
+        src = ('<dtml-let sentinel="\'outer\'">[<dtml-try>t%s<dtml-except>caught:%s</dtml-try>%s]</dtml-let>%s'
+               % (body, SCOPE_CATCH_FORMS[catch % len(SCOPE_CATCH_FORMS)], p_in, p_out))
         expected = '[caught:%s%s]%s' % (ecls, e_in, e_out)
     log = []
+    inner_bad = []
 
     def fail():
         raise proggen.EM('fault')
-    holder = _Holder()
-    holder.on_the_holder = 1
-    ns = {'mark': log.append, 'yes': 1, 'no': 0, 'three': [10, 20, 30], 'empty': [], 'holder': holder,
-          'amap': {'in_the_mapping': 1}, 'Err': proggen.E2, 'Err3': proggen.E3, 'val': 'RV', 'fail': fail}
-    for n, text in subs.items():
-        ns[n] = compiled(text)
-    label = {'wrappers': names, 'left_by': ename, 'data_passed_as': channel, 'source': src, 'sub_templates': subs}
+
+    def make_ns(mark, val):
+        holder = _Holder()
+        holder.on_the_holder = 1
+        ns = {'mark': mark, 'yes': 1, 'no': 0, 'three': [10, 20, 30], 'empty': [], 'holder': holder,
+              'amap': {'in_the_mapping': 1}, 'Err': proggen.E2, 'Err3': proggen.E3, 'val': val, 'fail': fail}
+        for n, text in subs.items():
+            ns[n] = compiled(text, klass)
+        return ns
+    mark = log.append
+    if reenter:
+        def mark(mid):
+            log.append(mid)
+            ilog = []
+            res.count('scope_sweep_reentered_renderings')
+            iexp = expected.replace('[RV', '[RW')
+            try:
+                igot = call_template(compiled(src, klass), channel, make_ns(ilog.append, 'RW'))
+            except Exception as e:  # noqa
+                inner_bad.append('the rendering started at %s raised %s: %.120s' % (mid, type(e).__name__, e))
+                return
+            if igot != iexp or ilog != exp_log:
+                inner_bad.append('the rendering started at %s gave %r with the logging calls %r, not %r with %r'
+                                 % (mid, igot, ilog, iexp, exp_log))
+    ns = make_ns(mark, 'RV')
+    label = {'wrappers': names, 'left_by': ename, 'data_passed_as': channel, 'template_class': klass, 'source': src,
+             'sub_templates': subs}
+    if reenter:
+        label['re_entered'] = 'at every logging call, by the same template'
     res.evaluations += 1
     res.count('scope_sweep_renderings')
     res.count('scope_sweep_left_by_' + ename)
+    if klass != 'HTML':
+        res.count('scope_sweep_renderings_' + klass)
     res.nt(('scope', tuple(names), ename))
     try:
-        t = compiled(src)
-        if channel == 'keywords':
-            got = t(**ns)
-        elif channel == 'mapping':
-            got = t(None, ns)
-        else:
-            client = _Holder()
-            client.__dict__.update(ns)
-            got = t(client)
+        got = call_template(compiled(src, klass), channel, ns)
     except Exception as e:  # noqa
         res.oracle_fail.append({'case': label, 'what': 'expected the text %r; the call raised %s: %.200s (log %r)'
                                                        % (expected, type(e).__name__, e, log)})
@@ -1372,6 +1512,9 @@ def scope_one(res, wrappers, exit_, channel):
         res.oracle_fail.append({'case': label, 'what': 'the text is right, but the logging calls rendered were %r; Python control '
                                                        'flow renders %r (p: before the exit, f: finally bodies passed, n: never)'
                                                        % (log, exp_log)})
+        return False
+    if inner_bad:
+        res.oracle_fail.append({'case': label, 'what': 'the outer call is right, but ' + '; '.join(inner_bad[:3])})
         return False
     return True
 
@@ -1391,6 +1534,20 @@ def sweep_scopes(res, tier, r):
         for ex in exits:
             if usable(ws, ex):
                 bad += not scope_one(res, ws, ex, chans[n % 3])
+                n += 1
+                if bad > 40:
+                    return n
+    # every template class x every way the catching handler reads error_* x re-entered or not: every wrapper x every exit,
+    # then every ordered pair with exits rotating (thorough: every exit)
+    k = 0
+    for ws in nests:
+        exits = SCOPE_EXITS if tier == 'thorough' or len(ws) == 1 else [SCOPE_EXITS[k % len(SCOPE_EXITS)]]
+        for ex in exits:
+            k += 1
+            if usable(ws, ex):
+                klass = TEMPLATE_CLASSES[(k // 2) % 3]
+                chan = chans[k % 2] if klass in RESTRICTED else chans[k % 3]
+                bad += not scope_one(res, ws, ex, chan, klass, catch=k, reenter=k % 2 == 1)
                 n += 1
                 if bad > 40:
                     return n
@@ -1434,7 +1591,11 @@ def run(res, tier, have_driver):
                  '(identity); SWEEP: ~50 values of every type x 11 spellings of dtml-return x 25 block contexts nested to depth '
                  '3 x 4 ways of passing data: identical object back, nothing raised, exactly the logging calls Python control '
                  'flow renders; SCOPE SWEEP: the same contexts left by 6 kinds of exception or a sub-template return, then '
-                 'probes of error_* / let / with / in / keyword names and an enclosing let: all unbound again')
+                 'probes of error_* / let / with / in / keyword names and an enclosing let: all unbound again; BOTH SWEEPS also '
+                 'per template class (HTML / subclass / RestrictedDTML security mix-in), with 10 ways the handler reads '
+                 'error_type / error_value / error_tb, and RE-ENTERED: every logging call (incl. finally bodies under a pending '
+                 'return / exception) renders the same compiled template again with another value; every rendering keeps its own '
+                 'value, text and log')
     if RAISE_EXPR_RENAMES_CLASS:
         res.partial.append('left out (violation on the unchanged library, reported): <dtml-raise expr="c"> with c a class whose '
                            '__name__ is also a built-in / zExceptions exception name raises THAT class, not c '
